@@ -489,6 +489,15 @@ class Spec:
         def vars_of(t, acc, depth=0):
             acc.update(vset(t))
 
+        okc = {}
+        BAD = (z3.Z3_OP_AND, z3.Z3_OP_OR, z3.Z3_OP_NOT, z3.Z3_OP_ITE, z3.Z3_OP_IMPLIES, z3.Z3_OP_EQ, z3.Z3_OP_DISTINCT, z3.Z3_OP_IFF)
+
+        def pat_ok(t):
+            i = t.get_id()
+            if i not in okc:
+                okc[i] = (not z3.is_quantifier(t)) and (not z3.is_app(t) or t.decl().kind() not in BAD) and all(pat_ok(c) for c in t.children())
+            return okc[i]
+
         def walk(t):
             if t.get_id() in seen:
                 return
@@ -502,7 +511,7 @@ class Spec:
                 vars_of(t.arg(1), vs)
                 avs = set()
                 vars_of(t.arg(0), avs)
-                if vs and not (avs - vs):
+                if vs and not (avs - vs) and pat_ok(t):
                     cands.append((len(str(t)), t, frozenset(vs | avs)))
         try:
             walk(body)
